@@ -1,7 +1,7 @@
 """C12 — containment follows the @> rules, using the same equality as compare (structural clauses)."""
 import report
 from sym import Explorer, explore, show, subterms
-from pat import called, canon, is_call, deref_all, agg_variant, const_of
+from pat import called, canon, is_call, deref_all, agg_variant, const_of, strip_casts
 from mir import natural_loops, callee_name
 from rules import editing, dispatch, numcodec
 from rules.layout import cv
@@ -53,6 +53,52 @@ def guarded_by_edges(b, call_bb):
     if not edges:
         return False
     return call_bb not in reachable_without(b, edges)
+
+
+def tree_twin_guards(ctx, run, rule='R12.2'):
+    f = ctx.facts
+    # ---- R12.2 tree twin: recursion guards
+    b = f.bodies.get('functions::contains_value')
+    if b is None:
+        run.undecided(rule, 'functions::contains_value', 'recursion-guards', 'function not found (anchor lost)')
+    else:
+        paths, loops = editing.region_paths(b)
+        n = 0
+        bad = []
+        for q in paths:
+            for e in q.calls():
+                if not called(e[1], 'functions::contains_value'):
+                    continue
+                n += 1
+                x, y = deref_all(e[2][0]), deref_all(e[2][1])
+                conds = q.conds[:e[6]]
+                ok = False
+                for c in conds:
+                    t = c[0]
+                    if is_call(t, 'Value::eq_variant') and c[2] is True and deref_all(t[2][0]) == x and deref_all(t[2][1]) == y:
+                        ok = True
+                    if is_call(t, 'Value::is_scalar') and c[2] is False and deref_all(t[2][0]) == y:
+                        ok = True
+                if not ok:
+                    ok = guarded_by_edges(b, e[3])
+                if not ok:
+                    tt = e[5]
+                    bad.append(f"{tt.get('file')}:{tt.get('line')}")
+        if bad:
+            run.violation(rule, b.path, 'recursion-guards', f'a recursive containment test (at {sorted(set(bad))}) is made without first establishing that both operands have the same kind '
+                          'or that the right operand is a container: the top-level "array contains a bare scalar" exception then applies to nested members too', f'{b.file}:{b.line}')
+        else:
+            run.proved(rule, b.path, 'recursion-guards', f'{n} recursive call path(s): each under eq_variant(l, r) or !r.is_scalar()', f'{b.file}:{b.line}')
+        run.floor(rule, 'recursive calls in contains_value', n, 2)
+        # the special case comes first and is exactly array ⊇ scalar
+        first = None
+        for q in paths:
+            if q.blocks and q.blocks[0] == 0 and q.end[0] == 'return':
+                cs = [c for c in q.conds if c[0][0] == 'call']
+                if cs and is_call(cs[0][0], 'Value::is_array') and cs[0][2] is True and len(cs) > 1 and is_call(cs[1][0], 'Value::is_scalar') and cs[1][2] is True:
+                    first = q
+        (run.proved if first is not None else run.violation)(rule, b.path, 'special-case', 'left.is_array() && right.is_scalar() is tested first' if first is not None else
+                                                              'the array-contains-scalar special case is not the first test', f'{b.file}:{b.line}')
 
 
 def check(ctx, run):
@@ -107,48 +153,7 @@ def check(ctx, run):
         ok = {'functions::contains_jsonb', 'functions::array_contains'} <= set(users)
         (run.proved if ok else run.violation)('R12.1', 'functions::scalar_eq', 'used-by', f'used by {users}' if ok else f'scalar_eq is only used by {users}: some scalar comparison of the walker bypasses it')
     numcodec.r18_4(ctx, run, rule='R12.1/R18.4')
-    # ---- R12.2 tree twin: recursion guards
-    b = f.bodies.get('functions::contains_value')
-    if b is None:
-        run.undecided('R12.2', 'functions::contains_value', 'recursion-guards', 'function not found (anchor lost)')
-    else:
-        paths, loops = editing.region_paths(b)
-        n = 0
-        bad = []
-        for q in paths:
-            for e in q.calls():
-                if not called(e[1], 'functions::contains_value'):
-                    continue
-                n += 1
-                x, y = deref_all(e[2][0]), deref_all(e[2][1])
-                conds = q.conds[:e[6]]
-                ok = False
-                for c in conds:
-                    t = c[0]
-                    if is_call(t, 'Value::eq_variant') and c[2] is True and deref_all(t[2][0]) == x and deref_all(t[2][1]) == y:
-                        ok = True
-                    if is_call(t, 'Value::is_scalar') and c[2] is False and deref_all(t[2][0]) == y:
-                        ok = True
-                if not ok:
-                    ok = guarded_by_edges(b, e[3])
-                if not ok:
-                    tt = e[5]
-                    bad.append(f"{tt.get('file')}:{tt.get('line')}")
-        if bad:
-            run.violation('R12.2', b.path, 'recursion-guards', f'a recursive containment test (at {sorted(set(bad))}) is made without first establishing that both operands have the same kind '
-                          'or that the right operand is a container: the top-level "array contains a bare scalar" exception then applies to nested members too', f'{b.file}:{b.line}')
-        else:
-            run.proved('R12.2', b.path, 'recursion-guards', f'{n} recursive call path(s): each under eq_variant(l, r) or !r.is_scalar()', f'{b.file}:{b.line}')
-        run.floor('R12.2', 'recursive calls in contains_value', n, 2)
-        # the special case comes first and is exactly array ⊇ scalar
-        first = None
-        for q in paths:
-            if q.blocks and q.blocks[0] == 0 and q.end[0] == 'return':
-                cs = [c for c in q.conds if c[0][0] == 'call']
-                if cs and is_call(cs[0][0], 'Value::is_array') and cs[0][2] is True and len(cs) > 1 and is_call(cs[1][0], 'Value::is_scalar') and cs[1][2] is True:
-                    first = q
-        (run.proved if first is not None else run.violation)('R12.2', b.path, 'special-case', 'left.is_array() && right.is_scalar() is tested first' if first is not None else
-                                                              'the array-contains-scalar special case is not the first test', f'{b.file}:{b.line}')
+    tree_twin_guards(ctx, run, 'R12.2')
     # byte twin: candidate filter depends on the entry kind only
     # (any closure of contains_jsonb whose result tests an entry kind against CONTAINER_TAG is a candidate filter)
     filters = []
@@ -183,5 +188,32 @@ def check(ctx, run):
         kinds_differ = any(q.end[0] == 'return' and agg_variant(q.ret) and q.ret[1][2] == 'Ok' and q.ret[2][0][0] == 'const' and q.ret[2][0][1] is False and
                            any(c[0][0] == 'bin' and c[0][1] == 'Ne' and c[2] is True for c in q.conds) for q in paths)
         (run.proved if kinds_differ else run.violation)('R12.2', b.path, 'kinds-differ', 'different kinds -> false' if kinds_differ else 'differing kinds are not rejected', f'{b.file}:{b.line}')
+    # arrays: containment ignores multiplicity, so no answer may be derived from comparing the two element counts
+    if b is not None:
+        def is_count(t_):
+            t_ = strip_casts(deref_all(t_))
+            return t_[0] == 'bin' and t_[1] == 'BitAnd' and any(const_of(x) == g('CONTAINER_HEADER_LEN_MASK') for x in (t_[2], t_[3]))
+        bad = None
+        nret = 0
+        for q in paths:
+            if q.end[0] != 'return':
+                continue
+            kinds_ = [c[2] for c in q.conds if c[0][0] == 'bin' and c[0][1] == 'BitAnd' and c[1] == 'eq' and any(const_of(x) == 0xE0000000 for x in (c[0][2], c[0][3]))]
+            # the array/array arm: a header kind was matched as ARRAY and none as OBJECT / SCALAR (the other operand's kind is
+            # tied to it by the kinds-differ test)
+            if g('ARRAY_CONTAINER_TAG') not in kinds_ or g('OBJECT_CONTAINER_TAG') in kinds_ or g('SCALAR_CONTAINER_TAG') in kinds_:
+                continue
+            nret += 1
+            for c in q.conds:
+                t_ = c[0]
+                if t_[0] == 'bin' and t_[1] in ('Lt', 'Le', 'Gt', 'Ge', 'Ne', 'Eq') and is_count(t_[2]) and is_count(t_[3]) and isinstance(c[2], bool):
+                    r_ = deref_all(q.ret)
+                    if agg_variant(r_) and r_[1][2] == 'Ok' and r_[2] and r_[2][0][0] == 'const':
+                        bad = (show(t_)[:80], c[2], r_[2][0][1])
+        if bad:
+            run.violation('R12.2', b.path, 'array-counts', f'for two arrays the result {bad[2]} is returned after comparing the element counts ({bad[0]} = {bad[1]}): array containment ignores multiplicity '
+                          '([1] contains [1,1]), so the counts say nothing; the tree implementation has no such test', f'{b.file}:{b.line}')
+        elif nret:
+            run.proved('R12.2', b.path, 'array-counts', 'no result for two arrays depends on comparing their element counts', f'{b.file}:{b.line}')
     dispatch.r11_1(ctx, run, rule='R12.3/R11.1', only={'functions::contains'})
     return report.finish(run, level='other', explanation=EXPLANATION, assumptions=["A1: valid documents"])
